@@ -21,6 +21,7 @@ TRANSFORMS = [
     "X10 (directive //@closure) an inline closure `|x| expr` is given parameter and return types and a ghost contract: `|x: T| -> (r: U) ensures .. { expr }`; the body expression is verbatim",
     "X12 panic!(fmt, args..) -> panic!(\"..\") : the panic (a proof obligation) is kept, the formatted message dropped",
     "X11 (directive //@deimpl, unit c19_map only) `f: impl Bound` in argument position -> `f: ImplN` with a generic parameter `ImplN: Bound` (the desugaring rustc performs; Verus 0.2026.09.13 crashes on `requires` over impl-Trait arguments of trait methods)",
+    "X13 (directive //@sigsubst, unit c12_closest_of only) a generic parameter of the signature is instantiated with a concrete type (`I: IntoIterator<Item = C>` -> a borrowed Vec): the body is verbatim and is verified at that instantiation only (Verus cannot iterate over an abstract IntoIterator)",
     "X8 where Verus forbids `requires` on an impl of a std trait (Iterator::next), the extracted method body is checked as an impl of a local trait of the same shape declared in the unit (c10_earcut_glue: IteratorWithInvariant)",
 ]
 
@@ -305,6 +306,11 @@ def splice_fn(src, item, ann):
     # ---- signature: X11 `name: impl Bound` in argument position -> a named generic parameter (what the sugar stands for)
     if ann.get('deimpl'):
         sig = deimpl_sig(sig, src, item)
+    # ---- signature: X13 a generic parameter is instantiated (the unit verifies the function at that instantiation)
+    for (a, b) in ann.get('sigsubst') or []:
+        if a not in sig:
+            raise ExtractError('lost anchor: %s::%s: signature text %r not found' % (src.rel, item.name, a))
+        sig = sig.replace(a, b)
     # ---- signature: named return
     if ann.get('ret'):
         st = _retok(sig)
